@@ -77,10 +77,32 @@ def oracle_enr(ctx, n, sub="oracle-enr"):
     return summ
 
 
+def cli(ctx, n):
+    """the built achcli binary under the combinations of its four masking flags (flag wiring), both tiers"""
+    d = os.path.join(ctx.rundir, "cli")
+    os.makedirs(d, exist_ok=True)
+    binp = os.path.join(C.BIN, "achcli_c20")
+    rc, out = C.sh(["go", "build", "-o", binp, "./cmd/achcli"], cwd=C.REPO, timeout=900)
+    ctx.log("achcli build", out[-1000:])
+    if rc != 0:
+        ctx.diag.append("achcli does not build: " + out[-300:])
+        return None
+    rc, out = C.sh([os.path.join(C.BIN, "c20"), "cli", "-out", d, "-n", str(n), "-achcli", binp], timeout=3000)
+    ctx.log("cli", out[-2000:])
+    if rc != 0:
+        ctx.diag.append("achcli oracle crashed rc=%d: %s" % (rc, out[-300:]))
+    before = len(ctx.fails)
+    summ = ctx.read_jsonl(os.path.join(d, "cli.jsonl"))
+    for f in ctx.fails[before:]:
+        f["input"] = f.get("case")
+    return summ
+
+
 def search(ctx, factor):
     before = len(ctx.fails)
     oracle(ctx, ctx.scale(3000, 60000) * factor, "search")
     oracle_enr(ctx, ctx.scale(1500, 30000) * factor, "search-enr")
+    cli(ctx, ctx.scale(25, 400))
     found = ctx.fails[before:]
     del ctx.fails[before:]
     return found
@@ -117,6 +139,9 @@ def run(ctx):
     summ = oracle(ctx, ctx.scale(3000, 60000))
     ctx.add_summary(summ, "describe.File oracle")
     ctx.add_summary(oracle_enr(ctx, ctx.scale(1500, 30000)), "ENR/DNE payment information oracle")
+    s3 = cli(ctx, ctx.scale(25, 400))
+    if s3:
+        ctx.add_summary(s3, "achcli binary, masking flag combinations")
     if ctx.tier == "thorough":
         ctx.cov["forbidden_vernacular"] = C.forbidden_vernacular()
 
@@ -131,6 +156,11 @@ def replay(path):
     except (OSError, ValueError, AttributeError):
         cls = ""
     binary = "c20enr" if str(cls).startswith("pri-") else "c20"
-    rc, out = C.sh([os.path.join(C.BIN, binary), "replay", path], timeout=600)
+    env = {}
+    if binary == "c20":
+        binp = os.path.join(C.BIN, "achcli_c20")
+        C.sh(["go", "build", "-o", binp, "./cmd/achcli"], cwd=C.REPO, timeout=900)
+        env["VERIF_ACHCLI"] = binp
+    rc, out = C.sh([os.path.join(C.BIN, binary), "replay", path], timeout=600, extra_env=env)
     print(out)
     return 1 if rc != 0 else 0
